@@ -4,6 +4,11 @@
      Err   = the Go code returns an error,
      Panic = the Go code performs a slice / index operation out of range
              (or calls a panicking helper) — the process would crash.
+   The model follows the code AFTER the repairs of F3 and of the journal / manifest findings
+   (guards in entrySuffixMatches, indexEntry, lookup, NewCompressedChunk, iterateAllChunks,
+   readJournalRecord, parseV4/V5Manifest).  The Panic branches that remain are the ones the
+   theorems prove unreachable (offset_at beyond count, validateJournalRecord's underflow) and
+   hash_at, which is still unguarded.
    Only the bounds and consistency checks the Go code performs are modelled;
    where the Go code slices without a guard the model computes the same bound
    Go's runtime checks (including *capacity* semantics of s[lo:hi] on a
@@ -97,18 +102,27 @@ Definition open_table (file : bytes) (cnt : N) : res tindex :=
 Definition prefix_at (t : tindex) (idx : N) : N := be (sub (ti_buf t) (12 * idx) 8).
 Definition ord_at (t : tindex) (idx : N) : N := be (sub (ti_buf t) (12 * idx + 8) 4).
 
-(* ti.suffixes[o : o+12] with o = 12*ord.  suffixes is a sub-slice of indexBuff, its capacity
-   reaches the end of indexBuff (12*c suffix bytes + 20 footer bytes): Go checks o+12 <= cap. *)
+(* ti.suffixes[o : o+12] with o = 12*ord, behind the guard entrySuffixMatches and indexEntry
+   now carry (table_index.go:286, :296): ord >= count => ErrInvalidTableFile.  With ord < count
+   the slice is within len(suffixes) = 12*c. *)
 Definition suffix_at (t : tindex) (ord : N) : res bytes :=
   let c := ti_count t in
-  if 12 * ord + 12 <=? 12 * c + 20 then Ok (sub (ti_buf t) (16 * c + 12 * ord) 12) else Panic.
+  if ord <? c then Ok (sub (ti_buf t) (16 * c + 12 * ord) 12) else Err.
+
+(* hashAt (table_index.go:444, used by ResolveShortHash) has NO such guard: the same slice, checked
+   by Go only against the capacity of suffixes (12*c suffix bytes + 20 footer bytes).  Not part of
+   the open/has/get/getMany/iterate paths; modelled to state where a panic is still possible. *)
+Definition hash_at (t : tindex) (idx : N) : res bytes :=
+  let c := ti_count t in
+  let ord := ord_at t idx in
+  if 12 * ord + 12 <=? 12 * c + 20 then Ok (sub (ti_buf t) (12 * idx) 8 ++ sub (ti_buf t) (16 * c + 12 * ord) 12) else Panic.
 
 (* offsetAt (table_index.go:391).  For ord < count the bytes read (offsets1, or the first
    8*(c/2) bytes of offsets2, which OffsetsReader filled with offsets c1..c-1) hold the cumulative
    offset of [ord]; the slice is in bounds: 8*(ord-c1)+8 <= 8*(c/2) <= 4*c = len(offsets2).
-   For ord >= count (reachable from indexEntry when a tuple's ordinal equals count) Go re-slices
-   offsets2 beyond its length but within its capacity (the rest of indexBuff) and decodes whatever
-   is there: ti_buf is consulted. *)
+   For ord >= count Go would re-slice offsets2 beyond its length but within its capacity (the rest
+   of indexBuff) and decode whatever is there, or panic past the capacity: kept in the model, and
+   proved unreachable now that every caller checks ord < count first. *)
 Definition offset_at (t : tindex) (ord : N) : res N :=
   let c := ti_count t in
   let c1 := c - c / 2 in
@@ -117,7 +131,7 @@ Definition offset_at (t : tindex) (ord : N) : res N :=
        (* ti.offsets2[off : off+8]; cap(offsets2) = len(indexBuff) - 12*c *)
        if off + 8 <=? blen (ti_buf t) - 12 * c then Ok (be (sub (ti_buf t) (12 * c + off) 8)) else Panic.
 
-(* getIndexEntry (table_index.go:305): (offset, length) with length = uint32(ordOff - prevOff) *)
+(* getIndexEntry (table_index.go:315): (offset, length) with length = uint32(ordOff - prevOff) *)
 Definition get_index_entry (t : tindex) (ord : N) : res (N * N) :=
   bind (if ord =? 0 then Ok 0 else offset_at t (ord - 1)) (fun prev =>
   bind (offset_at t ord) (fun o =>
@@ -151,7 +165,8 @@ Fixpoint match_loop (fuel : nat) (t : tindex) (h : bytes) (idx : N) : res (optio
     else Ok None
   end.
 
-(* lookup (table_index.go:320): None = absent *)
+(* lookup (table_index.go:330): None = absent; an entry shorter than the checksum is
+   ErrInvalidTableFile (:339) *)
 Definition lookup (t : tindex) (h : bytes) : res (option (N * N)) :=
   bind (match_loop (N.to_nat (ti_count t)) t h (find_prefix t (addr_prefix h))) (fun m =>
     match m with
@@ -159,8 +174,14 @@ Definition lookup (t : tindex) (h : bytes) : res (option (N * N)) :=
     | Some idx =>
       let ord := ord_at t idx in
       if ord =? ti_count t then Ok None
-      else bind (get_index_entry t ord) (fun e => Ok (Some e))
+      else bind (get_index_entry t ord) (fun e => if snd e <? 4 then Err else Ok (Some e))
     end).
+
+(* indexEntry(idx, nil) (table_index.go:294): ordinal guard, getIndexEntry, length guard *)
+Definition index_entry_nil (t : tindex) (idx : N) : res (N * N) :=
+  let ord := ord_at t idx in
+  if ti_count t <=? ord then Err
+  else bind (get_index_entry t ord) (fun e => if snd e <? 4 then Err else Ok e).
 
 (* tableReader.has (table_reader.go:279) *)
 Definition has (t : tindex) (h : bytes) : res bool :=
@@ -169,11 +190,10 @@ Definition has (t : tindex) (h : bytes) : res bool :=
 Section WithCrc.
 Variable crc : bytes -> N.
 
-(* NewCompressedChunk (table_reader.go:68) on a buffer of [len] bytes at file[off..]:
-   dataLen := uint64(len) - 4 underflows when len < 4 and buff[dataLen:] panics *)
+(* NewCompressedChunk (table_reader.go:68): a buffer shorter than the checksum is an error (:69) *)
 Definition new_compressed_chunk (buff : bytes) : res bytes :=
   let n := blen buff in
-  if n <? 4 then Panic
+  if n <? 4 then Err
   else let comp := sub buff 0 (n - 4) in
        if be (sub buff (n - 4) 4) =? crc comp then Ok comp else Err.   (* "checksum error" *)
 
@@ -215,7 +235,7 @@ Fixpoint find_offsets (t : tindex) (reqs : list bytes) (fi : N) (acc : list (N *
     else bind (match_loop (N.to_nat c) t h fi') (fun m =>
            match m with
            | None => find_offsets t rest fi' acc
-           | Some idx => bind (get_index_entry t (ord_at t idx)) (fun e => find_offsets t rest fi' (e :: acc))
+           | Some idx => bind (index_entry_nil t idx) (fun e => find_offsets t rest fi' (e :: acc))
            end)
   end.
 
@@ -227,26 +247,25 @@ Fixpoint insert_by {A} (key : A -> N) (x : A) (l : list A) : list A :=
 (* stable insertion sort: what sort.Sort / sort.Slice do for n <= 12 *)
 Definition sort_by {A} (key : A -> N) (l : list A) : list A := fold_left (fun acc x => insert_by key x acc) l [].
 
-Inductive gm := GMCrash | GMNoCrash | GMEither.
+Inductive gm := GMCrash | GMNoCrash.
 
-(* getMany: a lookup-phase panic crashes the caller; a found record shorter than the checksum
-   crashes a reader goroutine unless an error of the same batch pre-empts it (the batch
-   split and the goroutine interleaving are not modelled: GMEither) *)
+(* getMany: a panic in the lookup phase crashes the caller.  The records found have length >= 4
+   and lie at cumulative (hence ordered, disjoint) offsets, so every batch buffer covers its
+   members and NewCompressedChunk gets at least the checksum: the reader goroutines cannot panic. *)
 Definition get_many (t : tindex) (reqs : list bytes) : gm :=
   match find_offsets t (sort_by addr_prefix reqs) 0 [] with
   | Panic => GMCrash
-  | Err => GMNoCrash
-  | Ok recs => if existsb (fun e => snd e <? 4) recs then GMEither else GMNoCrash
+  | _ => GMNoCrash
   end.
 
 (* ---- iterateAllChunks (table_reader.go:819) ----------------------------------- *)
 
-(* indexEntry(idx, &h) (table_index.go:291): suffix slice, then getIndexEntry *)
+(* indexEntry(idx, &h) (table_index.go:294): ordinal guard, suffix slice, getIndexEntry, length guard *)
 Definition index_entry (t : tindex) (idx : N) : res (N * N * bytes) :=
   let ord := ord_at t idx in
   bind (suffix_at t ord) (fun s =>
   bind (get_index_entry t ord) (fun e =>
-    Ok (fst e, snd e, sub (ti_buf t) (12 * idx) 8 ++ s))).
+    if snd e <? 4 then Err else Ok (fst e, snd e, sub (ti_buf t) (12 * idx) 8 ++ s))).
 
 Fixpoint collect (t : tindex) (k : nat) (idx : N) : res (list (N * N * bytes)) :=
   match k with
@@ -254,25 +273,18 @@ Fixpoint collect (t : tindex) (k : nat) (idx : N) : res (list (N * N * bytes)) :
   | S k' => bind (index_entry t idx) (fun e => bind (collect t k' (idx + 1)) (fun r => Ok (e :: r)))
   end.
 
-Definition iter_buf_size : N := 4194304.
-
-Definition take_pad (n : N) (l : bytes) : bytes :=
-  firstn (N.to_nat n) l ++ repeat 0 (N.to_nat n - length l).
-
-(* sequential read of the records in offset order through a 4 MiB scratch buffer whose stale
-   content survives short reads (the ReadFull error is dropped).  Returns the hashes delivered. *)
-Fixpoint iter_loop (file : bytes) (limit : N) (recs : list (N * N * bytes)) (pos : N) (buf : bytes)
+(* sequential read of the records in offset order from position 0 of the file, bounded by
+   last.offset+last.length; the scratch buffer grows to the record (:867) and a short read is an
+   error (:871).  Returns (address from the index, compressed bytes) of what is delivered. *)
+Fixpoint iter_loop (file : bytes) (limit : N) (recs : list (N * N * bytes)) (pos : N)
          (acc : list (bytes * bytes)) : res (list (bytes * bytes)) :=
   match recs with
   | [] => Ok (rev acc)
   | (_, len, h) :: rest =>
-    if iter_buf_size <? len then Panic                              (* buf[:chunk.length] *)
-    else
-      let avail := N.min limit (blen file) - pos in
-      let n := N.min len avail in
-      let buf' := sub file pos n ++ skipn (N.to_nat n) buf in
-      bind (new_compressed_chunk (take_pad len buf')) (fun comp =>
-        iter_loop file limit rest (pos + n) buf' ((h, comp) :: acc))
+    let avail := N.min limit (blen file) - pos in
+    if avail <? len then Err                                        (* io.ReadFull: (unexpected) EOF *)
+    else bind (new_compressed_chunk (sub file pos len)) (fun comp =>
+           iter_loop file limit rest (pos + len) ((h, comp) :: acc))
   end.
 
 Definition iterate (file : bytes) (t : tindex) : res (list (bytes * bytes)) :=
@@ -282,7 +294,7 @@ Definition iterate (file : bytes) (t : tindex) : res (list (bytes * bytes)) :=
     let last := List.last sorted (0, 0, []) in
     let total := fst (fst last) + snd (fst last) in
     let limit := if 9223372036854775808 <=? total then 0 else total in
-    iter_loop file limit sorted 0 [] []).
+    iter_loop file limit sorted 0 []).
 
 (* =====================================================================
    2. journal records   (go/store/nbs/journal_record.go)
@@ -304,17 +316,18 @@ Fixpoint read_fields (fuel : nat) (buf : bytes) (r : jrec) : res jrec :=
   match fuel with
   | O => Ok r
   | S f =>
-    if blen buf <=? 4 then Ok r                       (* checksum = buf[:4]: within capacity of the peek buffer *)
+    if blen buf <=? 4 then (if blen buf <? 4 then Err else Ok r)   (* "truncated before checksum" (:239) *)
     else match buf with
          | [] => Ok r
          | tag :: b =>
-           if tag =? 1 then                            (* kind: b[0], b[1:] — len b >= 4 *)
+           if tag =? 1 then                            (* kind: guarded (:207); len b >= 4 here anyway *)
+             if blen b <? 1 then Err else
              read_fields f (skipn 1 b) {| j_kind := nth 0 b 0; j_addr := j_addr r; j_payload := j_payload r |}
-           else if tag =? 2 then                       (* addr: copy; b[20:] panics when len b < 20 *)
-             if blen b <? 20 then Panic
+           else if tag =? 2 then                       (* addr: guarded (:215) *)
+             if blen b <? 20 then Err
              else read_fields f (skipn 20 b) {| j_kind := j_kind r; j_addr := sub b 0 20; j_payload := j_payload r |}
-           else if tag =? 4 then                       (* timestamp: readUint64(b) panics when len b < 8 *)
-             if blen b <? 8 then Panic else read_fields f (skipn 8 b) r
+           else if tag =? 4 then                       (* timestamp: guarded (:221) *)
+             if blen b <? 8 then Err else read_fields f (skipn 8 b) r
            else if tag =? 3 then                       (* payload: everything but the checksum *)
              let sz := blen b - 4 in
              read_fields f (skipn (N.to_nat sz) b)
@@ -327,6 +340,7 @@ Definition read_journal_record (buf : bytes) : res jrec :=
   read_fields (length buf) (skipn 4 buf) {| j_kind := 0; j_addr := repeat 0 20; j_payload := None |}.
 
 Definition journal_buff_size : N := 5242880.
+Definition root_hash_record_size : N := 40.
 
 Inductive stop := StopEnd | StopRecovered | StopErr.
 
@@ -360,7 +374,7 @@ Fixpoint loss_loop (fuel : nat) (buf : bytes) (idx : N) (first_root : bool) : re
   match fuel with
   | O => Ok (Some false)
   | S f =>
-    if blen buf <? idx + 40 then Ok (Some false)
+    if blen buf <? idx + root_hash_record_size then Ok (Some false)
     else let sz := be (sub buf idx 4) in
          if (0 <? sz) && (sz <=? journal_buff_size) && (sz <=? blen buf - idx) then
            let cand := sub buf idx sz in
@@ -442,9 +456,8 @@ Fixpoint read_version (fuel : nat) (s : bytes) (acc : bytes) : option (bytes * b
            end
   end.
 
-(* parseManifest + parseV5Manifest / parseV4Manifest (file_manifest.go:364, :326, :416):
-   Panic = hash.Parse on a malformed root hash string (d.PanicIfError), reached only when
-   the specs, the lock hash and (v5) the gc generation hash are well formed *)
+(* parseManifest + parseV5Manifest / parseV4Manifest (file_manifest.go:369, :326, :421):
+   every hash field goes through hash.MaybeParse; nothing panics *)
 Definition parse_manifest (s : bytes) : res manifest :=
   match read_version 8 s [] with
   | None => Err
@@ -458,7 +471,7 @@ Definition parse_manifest (s : bytes) : res manifest :=
            | Some specs =>
              if negb (valid_hash_str (nth 1 fields [])) then Err
              else if negb (valid_hash_str (nth 3 fields [])) then Err
-             else if negb (valid_hash_str (nth 2 fields [])) then Panic
+             else if negb (valid_hash_str (nth 2 fields [])) then Err   (* "Could not parse root hash" *)
              else Ok {| m_vers := 5; m_nbf := nth 0 fields []; m_lock := nth 1 fields [];
                         m_root := nth 2 fields []; m_gcgen := nth 3 fields []; m_specs := specs |}
            end
@@ -468,7 +481,7 @@ Definition parse_manifest (s : bytes) : res manifest :=
            | None => Err
            | Some specs =>
              if negb (valid_hash_str (nth 1 fields [])) then Err
-             else if negb (valid_hash_str (nth 2 fields [])) then Panic
+             else if negb (valid_hash_str (nth 2 fields [])) then Err
              else Ok {| m_vers := 4; m_nbf := nth 0 fields []; m_lock := nth 1 fields [];
                         m_root := nth 2 fields []; m_gcgen := []; m_specs := specs |}
            end
